@@ -126,7 +126,7 @@ def generate():
     for v, k in names:
         out.append("def errno_%s : Nat := %d" % (k, v))
     out.append("")
-    for k in ("MAX_SCRIPT_LENGTH", "MAX_BLOB_LENGTH", "MAX_OP_COUNT", "MAX_STACK_SIZE"):
+    for k in ("MAX_SCRIPT_LENGTH", "MAX_BLOB_LENGTH", "MAX_OP_COUNT", "MAX_STACK_SIZE", "MAX_INT_SIZE"):
         out.append("def %s : Nat := %d" % (k, getattr(BitcoinVM, k)))
     out.append("def VM_FALSE : Bytes := %s" % lean_bytes(BitcoinVM.VM_FALSE))
     out.append("def VM_TRUE : Bytes := %s" % lean_bytes(BitcoinVM.VM_TRUE))
@@ -139,6 +139,7 @@ def generate():
     out.append("def p2s_OP_EQUAL : Nat := %d" % P2S.OP_EQUAL)
     out.append("def p2s_OP_HASH160 : Nat := %d" % P2S.OP_HASH160)
     out.append("def defaultFlags : Nat := %d" % SC.DEFAULT_FLAGS)
+    out.append("def op1Script : Bytes := %s" % lean_bytes(SC.ScriptTools.compile("OP_1")))
     out.append("def codeseparatorScript : Bytes := %s" % lean_bytes(SC.ScriptTools.compile("OP_CODESEPARATOR")))
     g = BitcoinVM.generator_for_signature_type(1)
     out.append("/-- `generator.p()` and `generator.order()` of `BitcoinVM.generator_for_signature_type` -/")
